@@ -1,7 +1,9 @@
 //! cwe_conf: conformance harness.  Generates inputs, calls the REAL cwe_checker code, records
 //! ndjson traces for TLC.  It never decides a property.
+mod domenc;
 mod enc;
 mod irenc;
+mod ivgen;
 mod out;
 mod props;
 mod rng;
@@ -19,7 +21,10 @@ fn main() {
         usage();
     }
     // a panic of code under test is data: silence the default hook output
-    std::panic::set_hook(Box::new(|_| {}));
+    // (set VERIF_SHOW_PANICS=1 to see them while developing a generator)
+    if std::env::var("VERIF_SHOW_PANICS").is_err() {
+        std::panic::set_hook(Box::new(|_| {}));
+    }
     let mut seed = 1u64;
     let mut tier = "quick".to_string();
     let mut outdir = String::new();
